@@ -167,32 +167,42 @@ static void c01_case (long idx, vf_rng *r)
     int dsh[4], dbits[4]; if (!rp_is_float (df)) rp_layout (df, dsh, dbits);
     uint32_t defined = rp_is_float (df) ? 0 : rp_defined_mask (df);
     long npx = 0; int reported = 0; double maxdev = 0;
+    /* A unified mask of an alpha-less wide format has no effect on the result; the library may drop it (and then run the
+     * 8-bit pipeline when source and destination are narrow) or keep it (float pipeline).  Both are admissible: the case is
+     * judged under both readings and reported only if it fits neither. */
+    int alt = mode == RO_UNIFIED && rp_is_wide (mf) && !rp_is_wide (df) && !rp_is_wide (sf) && PIXMAN_FORMAT_A (mf) == 0;
+    static char dkey[2][128], dmsg[2][700]; int failed[2] = { 0, 0 };
+#define DEFER(k, ...) do { snprintf (dkey[pass], sizeof dkey[pass], "%s", k); snprintf (dmsg[pass], sizeof dmsg[pass], __VA_ARGS__); failed[pass] = 1; } while (0)
+    for (int pass = 0; pass < 1 + alt; pass++) {
+    int pmode = pass ? RO_NOMASK : mode;
+    int pnarrow = pass ? !ro_needs_float (op) : narrow, pall = pass ? 1 : all_narrow_fmt, pexact = pass ? (pnarrow && ro_is_exact_op (op)) : exact;
+    reported = 0; if (pass) npx = 0;
     for (int x = 0; x < n && !reported; x++) {
         uint8_t s8[4], m8[4] = { 255, 255, 255, 255 }, d8[4];
         npx++;
-        if (exact) {
-            operand_px8 (&S, x, s8); if (mode) operand_px8 (&M, x, m8);
+        if (pexact) {
+            operand_px8 (&S, x, s8); if (pmode) operand_px8 (&M, x, m8);
             rp_decode8 (df, vf_get_px (vf_buf_snaprow (&D.buf, 0), D.buf.bpp, x), d8);
-            uint8_t e8[4]; ro_exact8 (op, mode, s8, m8, d8, e8);
+            uint8_t e8[4]; ro_exact8 (op, pmode, s8, m8, d8, e8);
             uint32_t want = rp_encode8 (df, e8), got = vf_get_px (vf_buf_row (&D.buf, 0), D.buf.bpp, x);
             int edge = (s8[0] == 0) + 2 * (s8[0] == 255) + 4 * (d8[0] == 0) + 8 * (d8[0] == 255) + 16 * (m8[0] == 0) + 32 * (m8[0] == 255);
-            if (x < 4) vf_cell ("cells", vf_mix (vf_mix (op * 4 + mode, (uint32_t)df), vf_mix ((uint32_t)sf ^ ((uint32_t)mf << 1), edge + 64 * (skind + 3 * mkind))));
+            if (x < 4) vf_cell ("cells", vf_mix (vf_mix (op * 4 + pmode, (uint32_t)df), vf_mix ((uint32_t)sf ^ ((uint32_t)mf << 1), edge + 64 * (skind + 3 * mkind))));
             if ((want ^ got) & defined) {
-                char key[128]; snprintf (key, sizeof key, "C01:exact-mismatch:%s:%s", ro_op_name (op), mode_name[mode]);
-                vf_violation (key, "pixel %d: src=%02x%02x%02x%02x mask=%02x%02x%02x%02x dst=%02x%02x%02x%02x (a,r,g,b) -> got raw %08x, exact rule gives %08x (argb %02x%02x%02x%02x), defined bits %08x",
+                char key[128]; snprintf (key, sizeof key, "C01:pexact-mismatch:%s:%s", ro_op_name (op), mode_name[mode]);
+                DEFER (key, "pixel %d: src=%02x%02x%02x%02x mask=%02x%02x%02x%02x dst=%02x%02x%02x%02x (a,r,g,b) -> got raw %08x, pexact rule gives %08x (argb %02x%02x%02x%02x), defined bits %08x",
                               x, s8[0], s8[1], s8[2], s8[3], m8[0], m8[1], m8[2], m8[3], d8[0], d8[1], d8[2], d8[3], got, want, e8[0], e8[1], e8[2], e8[3], defined);
                 reported = 1;
             }
         } else {
             double sf_[4], mf_[4] = { 1, 1, 1, 1 }, df_[4], lo[4], hi[4], int_reduce_slack = 0;
-            if (narrow) {
-                /* integer-evaluated blend modes: the staging of the exact rule (8-bit pre-masked source) */
-                operand_px8 (&S, x, s8); if (mode) operand_px8 (&M, x, m8);
+            if (pnarrow) {
+                /* integer-evaluated blend modes: the staging of the pexact rule (8-bit pre-masked source) */
+                operand_px8 (&S, x, s8); if (pmode) operand_px8 (&M, x, m8);
                 rp_decode8 (df, vf_get_px (vf_buf_snaprow (&D.buf, 0), D.buf.bpp, x), d8);
                 uint8_t sp[4], sac[4];
                 for (int c = 0; c < 4; c++) {
-                    sp[c] = mode == RO_NOMASK ? s8[c] : (uint8_t)ro_mul8 (s8[c], mode == RO_UNIFIED ? m8[0] : m8[c]);
-                    sac[c] = mode == RO_NOMASK ? s8[0] : (uint8_t)ro_mul8 (s8[0], mode == RO_UNIFIED ? m8[0] : m8[c]);
+                    sp[c] = pmode == RO_NOMASK ? s8[c] : (uint8_t)ro_mul8 (s8[c], pmode == RO_UNIFIED ? m8[0] : m8[c]);
+                    sac[c] = pmode == RO_NOMASK ? s8[0] : (uint8_t)ro_mul8 (s8[0], pmode == RO_UNIFIED ? m8[0] : m8[c]);
                 }
                 /* evaluate per channel with the pre-masked source and its per-channel alpha: done by a CA evaluation with mask = identity */
                 for (int c = 0; c < 4; c++) { df_[c] = d8[c] / 255.0; }
@@ -204,23 +214,23 @@ static void c01_case (long idx, vf_rng *r)
                     lo[c] = l1[c ? 1 : 0]; hi[c] = h1[c ? 1 : 0];
                 }
             } else {
-                operand_pxf (&S, x, sf_); if (mode) operand_pxf (&M, x, mf_);
+                operand_pxf (&S, x, sf_); if (pmode) operand_pxf (&M, x, mf_);
                 rp_decodef_row (df, vf_buf_snaprow (&D.buf, 0), x, df_);
-                ro_real (op, mode, sf_, mf_, df_, lo, hi);
-                if (all_narrow_fmt) {
-                    /* a float-class operator on narrow formats may legitimately be strength-reduced to an integer operator
+                ro_real (op, pmode, sf_, mf_, df_, lo, hi);
+                if (pall) {
+                    /* a float-class operator on pnarrow formats may legitimately be strength-reduced to an integer operator
                      * (e.g. DISJOINT_SRC -> SRC, SATURATE with an opaque source -> OVER_REVERSE); the integer pipeline
                      * reads an n-bit field by bit replication, the float pipeline as v/(2^n-1).  Both readings are admissible. */
                     double s2[4], m2[4] = { 1, 1, 1, 1 }, d2[4], l2[4], h2[4];
-                    operand_px8 (&S, x, s8); if (mode) operand_px8 (&M, x, m8);
+                    operand_px8 (&S, x, s8); if (pmode) operand_px8 (&M, x, m8);
                     rp_decode8 (df, vf_get_px (vf_buf_snaprow (&D.buf, 0), D.buf.bpp, x), d8);
                     for (int c = 0; c < 4; c++) { s2[c] = s8[c] / 255.0; m2[c] = m8[c] / 255.0; d2[c] = d8[c] / 255.0; }
-                    ro_real (op, mode, s2, m2, d2, l2, h2);
+                    ro_real (op, pmode, s2, m2, d2, l2, h2);
                     for (int c = 0; c < 4; c++) { if (l2[c] < lo[c]) lo[c] = l2[c]; if (h2[c] > hi[c]) hi[c] = h2[c]; }
                     int_reduce_slack = 0.5;     /* an integer route rounds to nearest after its own staging */
                 }
             }
-            if (x < 4) vf_cell ("cells", vf_mix (vf_mix (op * 4 + mode, (uint32_t)df), vf_mix ((uint32_t)sf ^ ((uint32_t)mf << 1), 7 + narrow + 64 * (skind + 3 * mkind))));
+            if (x < 4) vf_cell ("cells", vf_mix (vf_mix (op * 4 + pmode, (uint32_t)df), vf_mix ((uint32_t)sf ^ ((uint32_t)mf << 1), 7 + pnarrow + 64 * (skind + 3 * mkind))));
             if (rp_is_float (df)) {
                 double got[4]; rp_decodef_row (df, vf_buf_row (&D.buf, 0), x, got);
                 int nch = PIXMAN_FORMAT_BPP (df) == 128 ? 4 : 3;
@@ -230,7 +240,7 @@ static void c01_case (long idx, vf_rng *r)
                     double tol = 1.0 / 4096;
                     if (!(got[c] >= l - tol && got[c] <= h + tol)) {
                         char key[128]; snprintf (key, sizeof key, "C01:float-mismatch:%s:%s", ro_op_name (op), mode_name[mode]);
-                        vf_violation (key, "pixel %d channel %d: got %.6f, equations give [%.6f,%.6f] (src a=%.4f, dst a=%.4f)", x, c, got[c], l, h, sf_[0], df_[0]);
+                        DEFER (key, "pixel %d channel %d: got %.6f, equations give [%.6f,%.6f] (src a=%.4f, dst a=%.4f)", x, c, got[c], l, h, sf_[0], df_[0]);
                         reported = 1; break;
                     }
                 }
@@ -240,9 +250,9 @@ static void c01_case (long idx, vf_rng *r)
                     if (!dmax[c]) continue;
                     double l = lo[c] < 0 ? 0 : lo[c] > 1 ? 1 : lo[c], h = hi[c] > 1 ? 1 : hi[c] < 0 ? 0 : hi[c];
                     if (rp_is_srgb (df) && c > 0) { l = rp_linear_to_srgb (l); h = rp_linear_to_srgb (h); }
-                    double M = dmax[c], tolsteps = narrow ? 1.5 : 1.0 + int_reduce_slack, delta = M / 262144.0 + 1e-6;
+                    double M = dmax[c], tolsteps = pnarrow ? 1.5 : 1.0 + int_reduce_slack, delta = M / 262144.0 + 1e-6;
                     double kl, kh;
-                    if (narrow && dbits[c] < 8) {
+                    if (pnarrow && dbits[c] < 8) {
                         /* integer pipeline: judged in the 8-bit domain, then truncated to the destination's bits */
                         double l8 = ceil (l * 255 - tolsteps - delta), h8 = floor (h * 255 + tolsteps + delta); int shn = 8 - dbits[c];
                         if (l8 < 0) l8 = 0;
@@ -253,17 +263,20 @@ static void c01_case (long idx, vf_rng *r)
                     if (dev > maxdev) maxdev = dev;
                     if (dev > 0) {
                         char key[128];
-                        int hslu = ro_is_hsl (op) && mode == RO_UNIFIED;
-                        snprintf (key, sizeof key, "C01:%s-mismatch:%s:%s%s", narrow ? "int-blend" : "float", ro_op_name (op), mode_name[mode], hslu ? (c == 2 ? ":green" : c == 3 ? ":blue" : "") : "");
-                        vf_violation (key, "pixel %d channel %d (0=a,1=r,2=g,3=b): got %u of %d, equations give [%.4f,%.4f] -> admissible [%.3f,%.3f]; src=(%.4f %.4f %.4f %.4f) mask=(%.4f %.4f %.4f %.4f) dst=(%.4f %.4f %.4f %.4f)",
-                                      x, c, gch[c], dmax[c], lo[c], hi[c], kl, kh, narrow ? s8[0] / 255.0 : sf_[0], narrow ? s8[1] / 255.0 : sf_[1], narrow ? s8[2] / 255.0 : sf_[2], narrow ? s8[3] / 255.0 : sf_[3],
-                                      narrow ? m8[0] / 255.0 : mf_[0], narrow ? m8[1] / 255.0 : mf_[1], narrow ? m8[2] / 255.0 : mf_[2], narrow ? m8[3] / 255.0 : mf_[3], df_[0], df_[1], df_[2], df_[3]);
+                        int hslu = ro_is_hsl (op) && pmode == RO_UNIFIED;
+                        snprintf (key, sizeof key, "C01:%s-mismatch:%s:%s%s", pnarrow ? "int-blend" : "float", ro_op_name (op), mode_name[mode], hslu ? (c == 2 ? ":green" : c == 3 ? ":blue" : "") : "");
+                        DEFER (key, "pixel %d channel %d (0=a,1=r,2=g,3=b): got %u of %d, equations give [%.4f,%.4f] -> admissible [%.3f,%.3f]; src=(%.4f %.4f %.4f %.4f) mask=(%.4f %.4f %.4f %.4f) dst=(%.4f %.4f %.4f %.4f)",
+                                      x, c, gch[c], dmax[c], lo[c], hi[c], kl, kh, pnarrow ? s8[0] / 255.0 : sf_[0], pnarrow ? s8[1] / 255.0 : sf_[1], pnarrow ? s8[2] / 255.0 : sf_[2], pnarrow ? s8[3] / 255.0 : sf_[3],
+                                      pnarrow ? m8[0] / 255.0 : mf_[0], pnarrow ? m8[1] / 255.0 : mf_[1], pnarrow ? m8[2] / 255.0 : mf_[2], pnarrow ? m8[3] / 255.0 : mf_[3], df_[0], df_[1], df_[2], df_[3]);
                         reported = 1; break;
                     }
                 }
             }
         }
     }
+    }
+    if (failed[0] && (!alt || failed[1])) vf_violation (dkey[0], "%s%s", dmsg[0], alt ? " [also outside the reading in which the opaque wide mask is dropped]" : "");
+    if (alt) vf_count (failed[0] && !failed[1] ? "opaque_wide_mask_cases_fitting_only_the_dropped_reading" : "opaque_wide_mask_cases", 1);
     vf_count ("evaluations", npx);
     vf_count (exact ? "pixels_exact" : narrow ? "pixels_int_blend" : "pixels_float", npx);
     if (idx < 4) vf_sample ("op=%s mask=%s src=%s%s mask_fmt=%s dst=%s n=%d oracle=%s", ro_op_name (op), mode_name[mode], rp_name (sf), skind == 1 ? "(solid)" : skind == 2 ? "(1x1 repeat)" : "", mode ? rp_name (mf) : "-", rp_name (df), n, oracle);
